@@ -95,6 +95,15 @@ pub fn c15(run: &mut Run, workers: &[String]) -> Stats {
     let mine: HashMap<u64, u64> = digests.iter().copied().collect();
     let mut variants = vec![J::obj().set("variant", J::s(&c06::variant_name_full())).set("patterns", J::u(digests.len() as u64)).set("cases", J::u(st.get("evaluations")))];
     for pre in workers {
+        // a variant whose exploration process was killed by a signal (recorded by the driver) differs from the
+        // default build, which explored the same space to the end in this process
+        if let Ok(sig) = std::fs::read_to_string(format!("{}.crash", pre)) {
+            let label = std::path::Path::new(pre).file_name().and_then(|f| f.to_str()).unwrap_or("?").to_string();
+            let case = J::obj().set("kind", J::s("worker_crash")).set("variant", J::s(&label)).set("what", J::s("the exploration process of this build variant was killed by a signal on the case set the default build completes")).set("signal", J::s(sig.trim()));
+            st.violation(&run.known, "C15", &format!("build variant {} crashed ({}) on the common case set", label, sig.trim()), 0, case);
+            variants.push(J::obj().set("variant", J::s(&label)).set("crashed", J::s(sig.trim())));
+            continue;
+        }
         let (Ok(txt), Ok(bin)) = (std::fs::read_to_string(format!("{}.json", pre)), std::fs::read(format!("{}.bin", pre))) else {
             st.error(format!("missing worker output {}", pre));
             continue;
